@@ -45,11 +45,19 @@ def run_proc(cmd, lines, timeout, env=None):
         e.update(env)
     data = ("\n".join(lines) + "\n").encode()
     try:
-        p = subprocess.run(cmd, input=data, capture_output=True, timeout=timeout, env=e)
+        try:
+            p = subprocess.run(cmd, input=data, capture_output=True, timeout=timeout, env=e)
+        except FileNotFoundError:
+            from vlib import build as _b
+            raise _b.CacheEvicted("executable %s is gone" % cmd[0])
+        err = p.stderr.decode(errors="replace")
+        if p.returncode == 127 and "error while loading shared libraries" in err:
+            from vlib import build as _b
+            raise _b.CacheEvicted("a library of %s is gone: %s" % (cmd[0], err[-300:]))
         out = p.stdout.decode(errors="replace").split("\n")
         if out and out[-1] == "":
             out.pop()
-        return out, p.returncode, p.stderr.decode(errors="replace")[-6000:]
+        return out, p.returncode, err[-6000:]
     except subprocess.TimeoutExpired as ex:
         out = (ex.stdout or b"").decode(errors="replace").split("\n")
         if out and out[-1] == "":
